@@ -78,6 +78,15 @@ fn check_after_rejection(text: &str, pos: usize, ch: char, then: &[u8]) -> Optio
     check_roundtrip(then).map(|(sig, d)| (format!("{}:after-a-rejected-text", sig), format!("after decode({:?}) was rejected: {}", corrupted, d)))
 }
 
+fn check_rejected(text: &str) -> Option<(String, String)> {
+    let t = text.to_string();
+    match guard(|| Base64::decode(t.clone())) {
+        Err(p) => Some((format!("C18:panic:decode:{}:{}", p.location, panic_class(&p.message)), p.message)),
+        Ok(Ok(d)) => Some(("C18:decode-accepts-non-alphabet-character".to_string(), format!("{:?} decoded to {}", text, hex(&d)))),
+        Ok(Err(_)) => None,
+    }
+}
+
 fn rt_case(ctx: &mut Ctx, kind: &str, input: &[u8]) {
     let mut key = kind.as_bytes().to_vec();
     key.push(0);
@@ -178,6 +187,74 @@ pub fn run(ctx: &mut Ctx) {
         }
     }
     ctx.bound("ladder", json!(format!("lengths 3*2^k+r, k=0..{}, r=0..2, position-coded content (max {} bytes)", top, 3 * (1usize << top) + 2)));
+    // 3b. the encoder alone (it is linear) on inputs around and beyond 64 KiB, against the reference
+    for len in [49_152usize, 65_535, 65_536, 65_537, 65_538, 65_539, 98_304, 131_071, 131_072, 131_073, 196_609, 300_000] {
+        let v = crate::tree::coded(len, len as u32);
+        let mut k = b"enc\0".to_vec();
+        k.extend_from_slice(&(len as u64).to_le_bytes());
+        if !ctx.begin(&k) {
+            continue;
+        }
+        ctx.nontrivial();
+        ctx.add("cases_encode_only", 1);
+        let case = json!({"kind":"encode-only","len":len});
+        match guard(|| Base64::encode(&v)) {
+            Err(p) => ctx.fail(&format!("C18:panic:encode:{}:{}", p.location, panic_class(&p.message)), || case.clone(), p.message),
+            Ok(Err(e)) => ctx.fail("C18:encode-returned-error", || case.clone(), e),
+            Ok(Ok(s)) => {
+                let want = reference_encode(&v);
+                if s != want {
+                    let at = s.bytes().zip(want.bytes()).position(|(a, b)| a != b).unwrap_or(s.len().min(want.len()));
+                    ctx.outcome("fail");
+                    ctx.fail("C18:encode-differs-from-rfc4648", || case.clone(), format!("{} bytes: first difference at character {} (lengths {} vs {})", len, at, s.len(), want.len()));
+                } else {
+                    ctx.outcome("ok:encode-only");
+                }
+            }
+        }
+    }
+    ctx.bound("encode_only", json!("lengths 48 KiB .. 300 000 around 64 KiB and 128 KiB, position-coded content, compared with the reference encoder"));
+    // 4b. a character outside the alphabet appended to, inserted into or left over after valid text
+    //     (text lengths that are not a multiple of 4)
+    for t in TEXTS {
+        let enc = reference_encode(t.as_bytes());
+        let chars: Vec<char> = enc.chars().collect();
+        for ch in &non_alphabet_chars() {
+            for at in [0usize, 1, chars.len() / 2, chars.len().saturating_sub(1), chars.len()] {
+                let mut c2 = chars.clone();
+                c2.insert(at.min(c2.len()), *ch);
+                let text: String = c2.into_iter().collect();
+                let key = format!("insert\0{}", text);
+                if !ctx.begin(key.as_bytes()) {
+                    continue;
+                }
+                ctx.nontrivial();
+                ctx.add("cases_insert", 1);
+                let case = json!({"kind":"text","text":text});
+                match check_rejected(&text) {
+                    None => ctx.outcome("insertion-rejected"),
+                    Some((sig, detail)) => {
+                        ctx.outcome("fail");
+                        ctx.fail(&sig, || case.clone(), detail)
+                    }
+                }
+            }
+        }
+    }
+    for ch in &non_alphabet_chars() {
+        for text in [ch.to_string(), format!("{}{}", ch, ch), format!("Z{}", ch), format!("Zg{}", ch), format!("Zg={}", ch)] {
+            let key = format!("insert\0{}", text);
+            if !ctx.begin(key.as_bytes()) {
+                continue;
+            }
+            ctx.nontrivial();
+            let case = json!({"kind":"text","text":text});
+            if let Some((sig, detail)) = check_rejected(&text) {
+                ctx.fail(&sig, || case.clone(), detail)
+            }
+        }
+    }
+    ctx.bound("insert", json!("every non-alphabet character inserted at the start, after 1 character, in the middle, before the last character and at the end of every text; and alone / after 1..3 valid characters"));
     // 4. decoder: every single-character corruption by every non-alphabet character
     let bad = non_alphabet_chars();
     for t in TEXTS {
@@ -242,6 +319,17 @@ pub fn replay(case: &Value) -> Vec<Failure> {
             case["pos"].as_u64().unwrap_or(0) as usize,
             char::from_u32(case["char"].as_u64().unwrap_or(0) as u32).unwrap_or('?'),
         ),
+        Some("text") => check_rejected(case["text"].as_str().unwrap_or("")),
+        Some("encode-only") => {
+            let len = case["len"].as_u64().unwrap_or(0) as usize;
+            let v = crate::tree::coded(len, len as u32);
+            match guard(|| Base64::encode(&v)) {
+                Ok(Ok(s)) if s == reference_encode(&v) => None,
+                Ok(Ok(_)) => Some(("C18:encode-differs-from-rfc4648".to_string(), format!("{} bytes", len))),
+                Ok(Err(e)) => Some(("C18:encode-returned-error".to_string(), e)),
+                Err(p) => Some((format!("C18:panic:encode:{}:{}", p.location, panic_class(&p.message)), p.message)),
+            }
+        }
         Some("after-rejection") => check_after_rejection(
             case["text"].as_str().unwrap_or(""),
             case["pos"].as_u64().unwrap_or(0) as usize,
